@@ -66,3 +66,19 @@ func TransposeSPNEGOContext(next http.Handler) http.Handler {
 		next.ServeHTTP(w, r)
 	})
 }
+
+// RecoverAuthentication answers with the challenge when the authentication
+// middleware panics: gokrb5 slices tickets and checksums taken from the
+// Authorization header without checking their length first
+func RecoverAuthentication(next http.Handler, challenge string) http.Handler {
+	return http.HandlerFunc(func(w http.ResponseWriter, r *http.Request) {
+		defer func() {
+			if e := recover(); e != nil {
+				log.Printf("cannot process authorization header: %v", e)
+				w.Header().Set("WWW-Authenticate", challenge)
+				http.Error(w, "Unauthorized", http.StatusUnauthorized)
+			}
+		}()
+		next.ServeHTTP(w, r)
+	})
+}
